@@ -54,6 +54,7 @@ type hist struct {
 	// time stamps ask for it (under load: at any request), so a manifest that was an orphan a few operations ago may
 	// have been lost then, although something stored since makes it derivable again
 	orphSince map[string]bool
+	gonePass  map[string]bool
 }
 
 func (h *hist) polString() string {
@@ -302,6 +303,15 @@ func (h *hist) collect() {
 		return
 	}
 	real := w.RealSnap("r")
+	// manifests the pass has removed and was free to remove: they no longer derive their adopted children (K1: such
+	// a child has no entry of its own, so the pass that takes its last parent cannot see it - not even a young one)
+	h.gonePass = map[string]bool{}
+	for _, mm := range w.U.Mans {
+		if m.Mans[mm.D] != nil && !RM[mm.D] && real.Man[mm.D] != "ok" {
+			h.gonePass[mm.D] = true
+		}
+	}
+	defer func() { h.gonePass = nil }()
 	knownLost, unknownLost := false, false
 	var lost []string
 	// ---- C05: nothing of MustKeep is gone
@@ -738,7 +748,7 @@ func (h *hist) pull(d, what string, seen map[string]bool) {
 // index.json) and that are not derivable from the manifests that do have one, through index children and listed
 // referrers.
 func (h *hist) orphans() map[string]bool {
-	o := h.w.Orphans(h.w.Repos["r"], h.unlisted)
+	o := h.w.OrphansX(h.w.Repos["r"], h.unlisted, h.gonePass)
 	for d := range h.orphSince {
 		o[d] = true
 	}
